@@ -62,11 +62,12 @@ Section Terminal.
     s.(inp_avail) <= length s.(inp_rest) -> s.(ewk) = WIdle ->
     step F f s AItem = None -> step F f s AEnd = None -> s.(inp_ended) = true.
   Proof.
-    intros Hle He H1 H2. unfold step in H1, H2. rewrite He in H1, H2. cbn in H1, H2.
-    destruct (inp_ended s); [done|]. cbn in H1, H2. exfalso.
-    destruct (inp_avail s <? length (inp_rest s)) eqn:E1; [rewrite E1 in H1; discriminate H1|].
-    destruct (inp_avail s =? length (inp_rest s)) eqn:E2; [rewrite E2 in H2; discriminate H2|].
-    bool_hyps. lia.
+    intros Hle He H1 H2. unfold step in H1, H2. rewrite He in H1, H2.
+    destruct (inp_ended s); [done|exfalso].
+    destruct (decide (inp_avail s < length (inp_rest s))) as [Hlt|Hge].
+    - apply Nat.ltb_lt in Hlt. rewrite Hlt in H1. cbn in H1. done.
+    - assert (Heq : inp_avail s = length (inp_rest s)) by lia.
+      apply Nat.eqb_eq in Heq. rewrite Heq in H2. cbn in H2. done.
   Qed.
 
   (* C12.4 *)
@@ -87,7 +88,8 @@ Section Terminal.
     pose proof (input_finished s D2 Hew (Hterm AItem eq_refl) (Hterm AEnd eq_refl)) as Hend.
     pose proof (Hterm ACPoll eq_refl) as Hpoll.
     assert (Hdone : cst s = CDone).
-    { destruct (cst s) eqn:Ec; try done.
+    { pose proof Hnd as Hnd'. unfold dropped in Hnd'.
+      destruct (cst s) eqn:Ec; try done.
       - (* CIdle: the consumer could poll *)
         exfalso. cbn in Hpoll. unfold pollable in Hpoll. rewrite Ec in Hpoll.
         destruct (pending s); [destruct (closed s)|]; done.
@@ -100,7 +102,7 @@ Section Terminal.
         destruct (Hna Hnd Hn) as [Hp Hcl].
         specialize (Hbp Hnd Hn).
         destruct (poll_fn s) eqn:Epf; [|specialize (C4 Hnd eq_refl); congruence].
-        specialize (Htok eq_refl Hnd). unfold tokens, rtok in Htok.
+        specialize (Htok Epf Hnd). unfold tokens, rtok in Htok.
         rewrite Hq, Hrun, Hbp, Hcw, Hew in Htok. cbn in Htok.
         rewrite !orb_false_r in Htok.
         destruct (inp_waker s) eqn:Ei; [|done].
